@@ -113,4 +113,22 @@ theorem afb1dAtrousOne_gen (mode : Mode) (d : Nat) (w x : List R)
   rw [e1, e2]
   rcases hm with rfl | rfl | rfl <;> simp only [afb1dAtrousOne, hg, if_false]
 
+
+/-! ### the `roll` helper and the filter-preparation helpers -/
+
+/-- **`roll(x, n, dim)` (with `make_even=False`) read from the source**: the model's `rollPy` is the concatenation of the two slices
+whose bounds the source gives, with the shift normalised as the source normalises it — the same for all four `dim` branches -/
+theorem rollPy_gen {α : Type} (x : List α) (n : Int) :
+    rollPy x n = sliceFrom x (roll_first_from_3 (roll_norm n x.length)) ++ sliceTo x (roll_second_to_3 (roll_norm n x.length) 0) ∧
+    (∀ m e : Int, roll_first_from_0 m = roll_first_from_3 m ∧ roll_first_from_1 m = roll_first_from_3 m ∧ roll_first_from_2 m = roll_first_from_3 m ∧
+      roll_second_to_0 m e = roll_second_to_3 m e ∧ roll_second_to_1 m e = roll_second_to_3 m e ∧ roll_second_to_2 m e = roll_second_to_3 m e) := by
+  refine ⟨?_, fun _ _ => ⟨rfl, rfl, rfl, rfl, rfl, rfl⟩⟩
+  unfold rollPy roll_first_from_3 roll_second_to_3 roll_norm
+  simp only [add_zero]
+
+/-- the analysis helpers mirror the taps and the synthesis helper does not — what `DWT1DForwardM` / `DWTForwardM` (buffers =
+reversed filters) and `DWTInverseM` (filters as given) assume; the DTCWT helper mirrors too (`prepFilt = reverse`) -/
+theorem prep_mirrors_gen : prep_afb1d_mirrors_h0 = true ∧ prep_afb1d_mirrors_h1 = true ∧ prep_sfb1d_mirrors_g0 = false ∧
+    prep_sfb1d_mirrors_g1 = false ∧ dtcwt_prep_filt_mirrors = true := by decide
+
 end WV.C19Z
